@@ -39,6 +39,7 @@ REQUIRED_MONITORS = ['forced:init-keyword', 'forced:config',
                      'forced:parse-argument', 'fallback', 'no-two-full',
                      'forced:keyword-over-config-layout',
                      'fallback:reparse-after-ocr', 'fallback:exact',
+                     'fallback:segment-whole-text',
                      'fallback:required-by-keyword',
                      'hook:ChunkParser.__init__', 'hook:parse_safe']
 
@@ -176,7 +177,7 @@ def gen_fallback(rng):
             if k == drop:
                 text = text[:a] + text[b:]
         cfg = rng.choice(['', '', 'sec_within', 'sec_colon_cautious',
-                          'parse_qq'])
+                          'parse_qq', 'segment', 'segment,sec_within'])
     case = {'fallback': kind, 'text': text, 'cfg': cfg,
             'layout': base['layout']}
     r = rng.random()
@@ -221,6 +222,15 @@ def run_fallback(case, ctx, rec, pytrs):
                'chunk_layouts': [e['layout'] for e in rec.of('chunk_init')]}
         if check_no_two_full(d.tracts, pp, case, ctx, 'fallback'):
             return
+        deduced0 = [e['layout'] for e in rec.of('deduce_layout')][:1]
+        if 'segment' in (cfg or '') and deduced0 != ['copy_all']:
+            # Segmenting: each chunk falls back on its own (ASSUMPTIONS).
+            # Only when copy_all is deduced for the text as a whole does the
+            # one-tract clause apply under `segment` too.
+            ctx.hit('fallback:segment-per-chunk')
+            return
+        if 'segment' in (cfg or ''):
+            ctx.hit('fallback:segment-whole-text')
         if len(d.tracts) != 1:
             ctx.violation(
                 'fallback-not-one-tract', case,
@@ -231,8 +241,7 @@ def run_fallback(case, ctx, rec, pytrs):
             return
         t = d.tracts[0]
         deduced = [e['layout'] for e in rec.of('deduce_layout')]
-        if how is None and deduced and deduced[0] == 'copy_all' \
-                and 'segment' not in (cfg or ''):
+        if how is None and deduced and deduced[0] == 'copy_all':
             # copy_all deduced for the text as a whole (no Twp/Rge or no
             # section anywhere): the description is the preprocessed text
             # to the letter, nothing trimmed.
